@@ -74,11 +74,9 @@ class C01(Prop):
 
     def oracle(self, case, il):
         order, sizes, data = bbgen.case_input_wig(case)
-        r = il[0] if il else "R missing"
-        if r != "R ok":
-            return f"the writer did not accept a valid input: `{r}`"
-        if bbgen.first_line(il, "OPEN") != "OPEN ok":
-            return "the written file cannot be opened: " + str(bbgen.first_line(il, "OPEN"))
+        bad = bbgen.basic_ok(il)
+        if bad:
+            return bad
         want = "CHROMS " + " ".join(f"{n}:{i}:{sizes[n]}" for i, n in enumerate(order))
         got = bbgen.first_line(il, "CHROMS")
         if got != want:
